@@ -49,4 +49,31 @@ MUTANTS = [
       E("ir/module.go", "	for _, u := range m.UseListOrderBBs {\n		fw.Fprintln(u)\n	}", "	for _, u := range m.UseListOrderBBs {\n		fw.err = nil\n		fw.Fprintln(u)\n	}")),
     M("w-string-not-writeto", "C19", "W-5",
       E("ir/module.go", "	return buf.String()\n}\n\n// WriteTo", "	return buf.String() + \"\"[:0] + m.SourceFilename[:0]\n}\n\n// WriteTo")),
+    # ---- C01: dispatch / coverage --------------------------------------------
+    M("exh-drop-case-funcattr", "C01", ["EXH", "irFuncAttribute", "ast.AlignStackPair"],
+      E("asm/helper.go", "	case *ast.AlignStackPair:\n		return ir.AlignStack(uintLit(old.N()))\n", "")),
+    M("sib-drop-scaffold-case", "C01", ["SIB", "newType", "ScalableVectorType"],
+      E("asm/type.go", "	case *ast.ScalableVectorType:\n		return &types.VectorType{TypeName: typeName}, nil\n", "")),
+    M("pair-wrong-scaffold-type", "C01", ["PAIR", "ast.FSubInst"],
+      E("asm/inst_binary.go", "func (fgen *funcGen) newFSubInst(ident ir.LocalIdent, old *ast.FSubInst) (*ir.InstFSub, error) {", "func (fgen *funcGen) newFSubInst(ident ir.LocalIdent, old *ast.FSubInst) (*ir.InstFAdd, error) {"),
+      E("asm/inst_binary.go", "	return &ir.InstFSub{LocalIdent: ident, Typ: typ}, nil", "	return &ir.InstFAdd{LocalIdent: ident, Typ: typ}, nil")),
+    M("acc-drop-volatile", "C01", ["ACC", "ast.StoreInst.Volatile"],
+      E("asm/inst_memory.go", "	// (optional) Volatile.\n	_, inst.Volatile = old.Volatile()\n	// (optional) Sync scope.\n	if n, ok := old.SyncScope(); ok {\n		inst.SyncScope = stringLit(n.Scope())\n	}\n	// (optional) Atomic memory ordering constraints.\n	if n, ok := old.Ordering(); ok {\n		inst.Ordering = asmenum.AtomicOrderingFromString(n.Text())\n	}\n	// (optional) Alignment.\n	if n, ok := old.Align(); ok {\n		inst.Align = irAlign(n)\n	}\n	// (optional) Metadata.\n	md, err := fgen.gen.irMetadataAttachments(old.Metadata())\n	if err != nil {\n		return errors.WithStack(err)\n	}\n	inst.Metadata = md\n	return nil\n}\n\n// --- [ fence ]",
+        "	// (optional) Sync scope.\n	if n, ok := old.SyncScope(); ok {\n		inst.SyncScope = stringLit(n.Scope())\n	}\n	// (optional) Atomic memory ordering constraints.\n	if n, ok := old.Ordering(); ok {\n		inst.Ordering = asmenum.AtomicOrderingFromString(n.Text())\n	}\n	// (optional) Alignment.\n	if n, ok := old.Align(); ok {\n		inst.Align = irAlign(n)\n	}\n	// (optional) Metadata.\n	md, err := fgen.gen.irMetadataAttachments(old.Metadata())\n	if err != nil {\n		return errors.WithStack(err)\n	}\n	inst.Metadata = md\n	return nil\n}\n\n// --- [ fence ]")),
+    M("acc-result-discarded", "C01", ["ACC", "ast.AtomicRMWInst.SyncScope"],
+      E("asm/inst_memory.go", "	// (optional) Sync scope.\n	if n, ok := old.SyncScope(); ok {\n		inst.SyncScope = stringLit(n.Scope())\n	}\n	// (optional) Metadata.", "	_, _ = old.SyncScope()\n	// (optional) Metadata.", nth=2)),
+    M("flow-miswired-flag", "C01", ["FLOW", "ir.InstStore.Volatile"],
+      E("asm/inst_memory.go", "	_, inst.Volatile = old.Volatile()\n	// (optional) Sync scope.\n	if n, ok := old.SyncScope(); ok {\n		inst.SyncScope = stringLit(n.Scope())\n	}\n	// (optional) Atomic memory ordering constraints.\n	if n, ok := old.Ordering(); ok {\n		inst.Ordering = asmenum.AtomicOrderingFromString(n.Text())\n	}\n	// (optional) Alignment.\n	if n, ok := old.Align(); ok {\n		inst.Align = irAlign(n)\n	}\n	// (optional) Metadata.\n	md, err := fgen.gen.irMetadataAttachments(old.Metadata())\n	if err != nil {\n		return errors.WithStack(err)\n	}\n	inst.Metadata = md\n	return nil\n}\n\n// --- [ fence ]",
+        "	_, inst.Volatile = old.Atomic()\n	_, _ = old.Volatile()\n	// (optional) Sync scope.\n	if n, ok := old.SyncScope(); ok {\n		inst.SyncScope = stringLit(n.Scope())\n	}\n	// (optional) Atomic memory ordering constraints.\n	if n, ok := old.Ordering(); ok {\n		inst.Ordering = asmenum.AtomicOrderingFromString(n.Text())\n	}\n	// (optional) Alignment.\n	if n, ok := old.Align(); ok {\n		inst.Align = irAlign(n)\n	}\n	// (optional) Metadata.\n	md, err := fgen.gen.irMetadataAttachments(old.Metadata())\n	if err != nil {\n		return errors.WithStack(err)\n	}\n	inst.Metadata = md\n	return nil\n}\n\n// --- [ fence ]")),
+    M("flow-swapped-di-field", "C01", ["FLOW", "DICommonBlock.Scope"],
+      E("asm/specialized_metadata.go", "			scope, err := gen.irMDField(oldField.Scope())\n			if err != nil {\n				return nil, errors.WithStack(err)\n			}\n			md.Scope = scope\n		case *ast.DeclarationField:\n			declaration, err := gen.irMDField(oldField.Declaration())\n			if err != nil {\n				return nil, errors.WithStack(err)\n			}\n			md.Declaration = declaration",
+        "			scope, err := gen.irMDField(oldField.Scope())\n			if err != nil {\n				return nil, errors.WithStack(err)\n			}\n			md.Declaration = scope\n		case *ast.DeclarationField:\n			declaration, err := gen.irMDField(oldField.Declaration())\n			if err != nil {\n				return nil, errors.WithStack(err)\n			}\n			md.Scope = declaration")),
+    M("fldp-drop-inbounds", "C01", ["FLD-P", "ir.InstGetElementPtr.InBounds"],
+      E("ir/inst_memory.go", "	if inst.InBounds {\n		buf.WriteString(\" inbounds\")\n	}\n", "")),
+    M("fldw-never-filled", "C01", ["FLD-W", "ir.InstLoad.Align"],
+      E("asm/inst_memory.go", "	// (optional) Alignment.\n	if n, ok := old.Align(); ok {\n		inst.Align = irAlign(n)\n	}\n", "	// (optional) Alignment.\n	if n, ok := old.Align(); ok {\n		_ = irAlign(n)\n	}\n", nth=1)),
+    M("ord-swap-operands", "C01", ["ORD", "ir.InstSub"],
+      E("ir/inst_binary.go", '	fmt.Fprintf(buf, " %s, %s", inst.X, inst.Y.Ident())', '	fmt.Fprintf(buf, " %s %s, %s", inst.Y.Type(), inst.Y.Ident(), inst.X.Ident())', nth=2)),
+    M("opc-wrong-mnemonic", "C01", ["OPC", "ir.InstFSub"],
+      E("ir/inst_binary.go", '	buf.WriteString("fsub")', '	buf.WriteString("fadd")')),
 ]
